@@ -604,11 +604,20 @@ pub fn has_adjacent_same_lists(blocks: &[CBlock]) -> bool {
 
 /// Scan-level predicate for KF-ITEM-FIRST-BLOCK: a list item whose first block (raw HTML blocks
 /// are dropped by the reader and do not count) is a code block, quote, table or rule.
+/// Blocks that iwe does not read at all: raw HTML, and a quote that holds nothing besides.
+pub fn is_dropped_block(b: &SBlock) -> bool {
+    match b.kind {
+        BKind::Html => true,
+        BKind::Quote => b.children.iter().all(is_dropped_block),
+        _ => false,
+    }
+}
+
 pub fn has_item_first_block(s: &Scan) -> bool {
     let mut found = false;
     walk(&s.blocks, &mut |b, _| {
         if matches!(b.kind, BKind::Item) {
-            if let Some(first) = b.children.iter().find(|c| !matches!(c.kind, BKind::Html)) {
+            if let Some(first) = b.children.iter().find(|c| !is_dropped_block(c)) {
                 if matches!(first.kind, BKind::Code { .. } | BKind::Quote | BKind::Table | BKind::Rule) {
                     found = true;
                 }
@@ -642,7 +651,7 @@ pub fn has_item_first_list(s: &Scan) -> bool {
     let mut found = false;
     walk(&s.blocks, &mut |b, _| {
         if matches!(b.kind, BKind::Item) {
-            if let Some(first) = b.children.iter().find(|c| !matches!(c.kind, BKind::Html)) {
+            if let Some(first) = b.children.iter().find(|c| !is_dropped_block(c)) {
                 if matches!(first.kind, BKind::List { .. }) {
                     found = true;
                 }
@@ -657,7 +666,7 @@ pub fn has_item_first_list(s: &Scan) -> bool {
 /// items are not reachable from the note's root and are lost on output.
 pub fn has_nested_item_first_list(s: &Scan) -> bool {
     fn first_list(item: &SBlock) -> Option<&SBlock> {
-        item.children.iter().find(|c| !matches!(c.kind, BKind::Html)).filter(|c| matches!(c.kind, BKind::List { .. }))
+        item.children.iter().find(|c| !is_dropped_block(c)).filter(|c| matches!(c.kind, BKind::List { .. }))
     }
     let mut found = false;
     walk(&s.blocks, &mut |b, _| {
